@@ -78,6 +78,9 @@ func (t *int64Scalar) CoerceOut(v interface{}) (interface{}, error) {
 		// ok as is
 	case uint:
 		v = int64(tv)
+		if int64(tv) < 0 {
+			err = newCoerceErr(tv, "Int64")
+		}
 	case uint8:
 		v = int64(tv)
 	case uint16:
@@ -86,6 +89,9 @@ func (t *int64Scalar) CoerceOut(v interface{}) (interface{}, error) {
 		v = int64(tv)
 	case uint64:
 		v = int64(tv)
+		if int64(tv) < 0 {
+			err = newCoerceErr(tv, "Int64")
+		}
 	case string:
 		var i int64
 		if i, err = strconv.ParseInt(tv, 10, 64); err == nil {
